@@ -95,6 +95,8 @@ def _once(st, key, term):
     holds under the branch's disjunct); the term is kept alive so that its id cannot be reused."""
     if key in st.ghost:
         return True
+    if any(getattr(f, "_is_guard", False) for f in st.pc):
+        return False  # assumed under an expression guard (`a and len(d) ..`): only conditionally available, do not cache
     st.ghost[key] = (term, len(st.pc))
     return False
 
@@ -1191,11 +1193,13 @@ def value_method(ex, st, recv: Val, name, args, kwargs, node) -> Val:
                 o = lift(_as_set(ex, st, a, t, node), t)
                 r = {"union": z3.SetUnion, "difference": z3.SetDifference, "intersection": z3.SetIntersect}[name](r, o)
             return Val(t, r)
-        if name == "issubset":
-            return Val(T.BOOL, z3.IsSubset(s, lift(_as_set(ex, st, args[0], t, node), t)))
-        if name == "isdisjoint":
+        if name in ("issubset", "isdisjoint", "issuperset"):
+            # pointwise form (forall x. ..): far more stable in the solvers than set algebra + extensionality
             o = lift(_as_set(ex, st, args[0], t, node), t)
-            return Val(T.BOOL, z3.SetIntersect(s, o) == z3.K(t.elem.sort(), z3.BoolVal(False)))
+            x = fresh(t.elem, "sx")
+            sx, ox = z3.Select(s, x), z3.Select(o, x)
+            body = z3.Implies(sx, ox) if name == "issubset" else z3.Implies(ox, sx) if name == "issuperset" else z3.Not(z3.And(sx, ox))
+            return Val(T.BOOL, z3.ForAll([x], body))
         raise Unsupported(f"set.{name}", node)
     if isinstance(t, T.List):
         s = lift(recv)
